@@ -212,6 +212,8 @@ def run_check(pid: str, tier: str, seed: int, jobs: int) -> int:
             reported.append(sig)
             rc = max(rc, 1)
 
+        if reported:
+            rc = 1  # a reproduced violation outranks a harness error about another, unreproducible one
         if not samples:
             samples = [{"note": "no sample offered"}]
         cov = {
